@@ -53,12 +53,12 @@ pub mod shims {
     pub open spec fn may_take(held: Set<(int, int)>, rank: int) -> bool { forall|k: (int, int)| #[trigger] held.contains(k) ==> k.0 < rank }
     impl<T: Ranked> RwLock<T> {
         #[verifier::external_body] pub fn read(&self, Tracked(lk): Tracked<&mut Locks>) -> (g: ReadGuard<'_, T>)
-            requires !old(lk).held.contains((T::rank(), self.id@)), //@C07.a_task_never_takes_a_lock_it_already_holds
-                may_take(old(lk).held.remove((T::rank(), self.id@)), T::rank()), //@C07.locks_are_taken_in_one_order_account_before_endpoint
+            requires !old(lk).held.contains((T::rank(), self.id@)), //@C07.a_task_never_takes_a_lock_it_already_holds,C09.a_task_never_takes_a_lock_it_already_holds
+                may_take(old(lk).held.remove((T::rank(), self.id@)), T::rank()), //@C07.locks_are_taken_in_one_order_account_before_endpoint,C09.locks_are_taken_in_one_order_account_before_endpoint
             ensures final(lk).held == old(lk).held.insert((T::rank(), self.id@)) { unimplemented!() }
         #[verifier::external_body] pub fn write(&self, Tracked(lk): Tracked<&mut Locks>) -> (g: WriteGuard<'_, T>)
-            requires !old(lk).held.contains((T::rank(), self.id@)), //@C07.a_task_never_takes_a_lock_it_already_holds
-                may_take(old(lk).held.remove((T::rank(), self.id@)), T::rank()), //@C07.locks_are_taken_in_one_order_account_before_endpoint
+            requires !old(lk).held.contains((T::rank(), self.id@)), //@C07.a_task_never_takes_a_lock_it_already_holds,C09.a_task_never_takes_a_lock_it_already_holds
+                may_take(old(lk).held.remove((T::rank(), self.id@)), T::rank()), //@C07.locks_are_taken_in_one_order_account_before_endpoint,C09.locks_are_taken_in_one_order_account_before_endpoint
             ensures final(lk).held == old(lk).held.insert((T::rank(), self.id@)) { unimplemented!() }
     }
     impl<'a, T> std::ops::Deref for ReadGuard<'a, T> { type Target = T; #[verifier::external_body] fn deref(&self) -> (r: &T) ensures *r == *self.r { self.r } }
